@@ -123,15 +123,15 @@ def work_check(tier, seed):
     from pysmt.smtlib.parser import SmtLibParser
     from pysmt.rewritings import nnf, cnf, prenex_normal_form, aig
     from pysmt.oracles import get_logic
-    depth = 3000 if tier == "quick" else 20000
-    width = 40 if tier == "quick" else 200
+    depth = 3000 if tier == "quick" else 10000
+    width = 40 if tier == "quick" else 100
     viol, samples = [], []
     n = 0
     env = fresh()
     m = env.formula_manager
     sys.setrecursionlimit(1000)
     import signal
-    limit = 20 if tier == "quick" else 120
+    limit = 20 if tier == "quick" else 90
 
     class _Timeout(Exception):
         pass
